@@ -74,22 +74,26 @@ def stuck_index(out):
 
 def _rec(**kw):
     r = {"g": "", "ev": "", "arm": "", "api": "", "id": 0, "okcall": 0, "state": "", "action": "", "kind": "",
-         "ndata": 0, "sub": 0, "seq": 0, "known": 1, "acks": [], "scripts": {}}
+         "ndata": 0, "sub": 0, "msub": 0, "seq": 0, "known": 1, "acks": [], "scripts": {}}
     r.update(kw)
     return r
 
 
-def normalize_life(trace, nsub, app="a1"):
-    """hook events of a free-running fault scenario -> records for ClientConnLife"""
-    out = [_rec(g="main", ev="reset", scripts={app: ["sub"] * nsub + ["close"]}),
-           _rec(g="loop", ev="sub.loop", arm="pause")]
+def normalize_life(trace, nsub=0, app="a1"):
+    """hook events of a free-running scenario -> records for ClientConnLife / AckObs"""
     tr = trace or []
+    body = []
     started = False
     first_loop = True
+    calls = []            # model script reconstructed from the call notes
+    cur = ("", 0)
+    registered = set()    # model ids currently registered (for cancel / recancel)
+    sid_of = {}           # model id -> server id
+    forgotten = set()     # server ids the client has forgotten
     for i, e in enumerate(tr):
         g, ev = e.get("g"), e.get("ev")
         if g == "loop" and first_loop:
-            # the loop's first event (arm=pause, the signal of NewClient) is the synthetic record above,
+            # the loop's first event (arm=pause, the signal of NewClient) is the synthetic record below,
             # wherever the goroutine got round to it
             first_loop = False
             if ev == "sub.loop" and e.get("arm") == "pause":
@@ -108,55 +112,73 @@ def normalize_life(trace, nsub, app="a1"):
                         break
                     if f.get("g") == app and f.get("ev") == "return":
                         break
-                out.append(_rec(g=app, ev="call", api="subscribe", id=int(e.get("id", 0)), okcall=ok))
+                cur = ("subscribe", int(e.get("id", 0)))
+                calls.append("sub")
+                body.append(_rec(g=app, ev="call", api="subscribe", id=cur[1], okcall=ok))
+            elif ev == "call" and e.get("api") == "cancel":
+                cur = ("cancel", int(e.get("id", 0)))
+                calls.append("cancel" if cur[1] in registered else "recancel")
+                registered.discard(cur[1])
+                body.append(_rec(g=app, ev="call", api="cancel", id=cur[1]))
+            elif ev == "return" and e.get("api") == "subscribe":
+                if e.get("err") in ("<nil>", "", None):
+                    registered.add(int(e.get("id", 0)))
+                    sid_of[int(e.get("id", 0))] = int(e.get("sid", 0) or 0)
+                    forgotten.discard(int(e.get("sid", 0) or 0))
             elif ev in APP_HOOKS:
-                out.append(_rec(g=app, ev=ev, id=0))
+                if ev == "forget.locked":
+                    forgotten.add(int(e.get("id", 0) or 0))
+                body.append(_rec(g=app, ev=ev, api=cur[0], id=cur[1]))
             elif ev == "state" and e.get("state") == "Closed":
-                out.append(_rec(g=app, ev="state", state="Closed"))
+                body.append(_rec(g=app, ev="state", state="Closed"))
             elif ev == "closed":
-                out.append(_rec(g=app, ev="closed"))
+                body.append(_rec(g=app, ev="closed"))
         elif g == "loop":
             if ev == "sub.loop":
-                out.append(_rec(g=g, ev=ev, arm=e.get("arm", "")))
+                body.append(_rec(g=g, ev=ev, arm=e.get("arm", "")))
             elif ev == "pub.send":
                 acks = [[int(a.get("SubscriptionID", 0)), int(a.get("SequenceNumber", 0))] for a in (e.get("acks") or [])]
-                out.append(_rec(g=g, ev=ev, acks=acks))
+                body.append(_rec(g=g, ev=ev, acks=acks))
             elif ev == "pub.lock":
-                out.append(_rec(g=g, ev=ev, sub=int(e.get("sub", 0))))
+                sub = int(e.get("sub", 0))
+                msub = [m for m, sd in sid_of.items() if sd == sub and m in registered]
+                body.append(_rec(g=g, ev=ev, sub=sub, msub=msub[-1] if msub else 0))
             elif ev == "pub.locked":
-                out.append(_rec(g=g, ev=ev, sub=int(e.get("sub", 0)), seq=int(e.get("seq", 0)), ndata=int(e.get("ndata", 0))))
+                sub = int(e.get("sub", 0))
+                body.append(_rec(g=g, ev=ev, sub=sub, seq=int(e.get("seq", 0)), ndata=int(e.get("ndata", 0)),
+                                 known=0 if sub in forgotten else 1))
             elif ev in ("sub.pause.send", "sub.pause.sent"):
-                out.append(_rec(g=g, ev=ev))
+                body.append(_rec(g=g, ev=ev))
         elif g == "mon":
             if ev in ("sub.pause.send", "sub.pause.sent", "sub.resume.send"):
-                out.append(_rec(g=g, ev=ev))
+                body.append(_rec(g=g, ev=ev))
             elif ev == "mon.action":
-                out.append(_rec(g=g, ev=ev, action=e.get("action", "")))
+                if e.get("action") == "transferSubscriptions":
+                    forgotten.clear()
+                body.append(_rec(g=g, ev=ev, action=e.get("action", "")))
             elif ev == "mon.done":
-                out.append(_rec(g=g, ev=ev, id=int(e.get("activeSubs", 0))))
+                body.append(_rec(g=g, ev=ev, id=int(e.get("activeSubs", 0))))
             elif ev == "state":
-                out.append(_rec(g=g, ev=ev, state=e.get("state", "")))
+                body.append(_rec(g=g, ev=ev, state=e.get("state", "")))
         elif g == "env":
             if ev == "fault":
-                out.append(_rec(g=g, ev=ev, kind=e.get("kind", "")))
+                if e.get("kind") == "restart":
+                    forgotten.clear()
+                body.append(_rec(g=g, ev=ev, kind=e.get("kind", "")))
             elif ev in ("fault.end", "dial"):
-                out.append(_rec(g=g, ev=ev))
-    # the first subscription id of the model for app hooks: ids are assigned in call order
-    n = 0
-    for r in out:
-        if r["g"] == app and r["ev"] == "call" and r["api"] == "subscribe" and r["okcall"]:
-            n = r["id"]
-        elif r["g"] == app and r["ev"] in APP_HOOKS:
-            r["id"] = n
-    return out
+                body.append(_rec(g=g, ev=ev))
+    head = [_rec(g="main", ev="reset", scripts={app: calls + ["close"]}),
+            _rec(g="loop", ev="sub.loop", arm="pause")]
+    return head + body
 
 
 SUPPORTED_AT = {"idle", "m.dial", "m.done", "m.psend", "m.psent", "m.rsend", "createSecureChannel", "restoreSession",
                 "recreateSession", "transferSubscriptions", "restoreSubscriptions"}
 
 
-def fault_rows(behs):
+def fault_rows(behs, seed=1, noauto=False):
     """distinct (script, fault sequence) rows of generated behaviours with the ends the model predicts"""
+    rnd = random.Random(seed)
     rows = {}
     for b in behs:
         sc = scripts_of(b).get("a1", [])
@@ -170,7 +192,12 @@ def fault_rows(behs):
         if b["stuck"] or b["lostresume"]:
             continue   # schedule-dependent ends are the business of C27
         key = json.dumps([sc, items])
-        r = rows.setdefault(key, {"script": [c for c in sc if c != "close"], "items": items, "lost": False, "closed": False})
+        if key not in rows:
+            for it in items:        # an outage refuses connections or lets them die on the OpenSecureChannel request
+                if it["k"] == "outage":
+                    it["how"] = rnd.choice(["refuse", "killopn"])
+        r = rows.setdefault(key, {"script": [c for c in sc if c != "close"], "items": items, "lost": False, "closed": False,
+                                  "noauto": noauto})
         r["lost"] = r["lost"] or bool(b["lost"])
         r["closed"] = r["closed"] or bool(b["closed"])
     return list(rows.values())
@@ -186,29 +213,43 @@ def run_faults(run, vf, prop):
                         workers=4 if q else 12,
                         label="contract: documented transitions, Closed after Close, no dial after Close, subscriptions survive, acks once"),
         lambda: run.tlc("ClientConn", "ClientConnMC", "C25_gen.cfg", mode="gen", count=False, timeout=3000,
-                        simulate=run.pick(250, 3000), depth=150, label="as-is model: seeded sample of fault scenarios"),
+                        simulate=run.pick(200, 3000), depth=150, label="as-is model: seeded sample of fault scenarios"),
         lambda: exe.__setitem__(0, run.go_build("clientconn")),
     ]
     if prop == "C25":
         jobs.append(lambda: run.tlc("ClientConn", "ClientConnMC", "C25_dev_armclose.cfg", expect="violation", count=False, timeout=1500, workers=2,
                                     label="deviation demo: reconnect arm ignores Close -> Closed->Reconnecting"))
+        jobs.append(lambda: run.tlc("ClientConn", "ClientConnMC", "C25_gen_noauto.cfg", mode="gen", count=False, timeout=1500,
+                                    simulate=run.pick(40, 300), depth=100, label="as-is model, AutoReconnect off: fault scenarios"))
     else:
         jobs.append(lambda: run.tlc("ClientConn", "ClientConnMC", "C26_dev_restore.cfg", expect="violation", count=False, timeout=1500, workers=2,
                                     label="deviation demo: restored session does not resume -> InvSubsSurvive"))
     res = run.parallel(*jobs)
-    rows = fault_rows(res[1].rows)
+    rows = fault_rows(res[1].rows, run.seed)
+    nrestart = lambda r: sum(1 for i in r["items"] if i["k"] == "restart")
     if prop == "C26":
         rows = [r for r in rows if r["script"]]
-    kinds = lambda r: json.dumps(sorted({(i["k"], i["at"]) for i in r["items"]})) + str(len(r["script"]))
-    sel = pick(rows, run.pick(10, 70), run.seed, key=kinds)
+    kinds = lambda r: json.dumps(sorted({(i["k"], i["at"], i.get("how", "")) for i in r["items"]})) + str(len(r["script"]))
+    n = run.pick(7, 60)
+    # always: one scenario with two re-creations (two restarts) and one with an outage that dies on OpenSecureChannel
+    must = pick([r for r in rows if nrestart(r) >= 2 and r["script"] and not r["closed"]], 1, run.seed) + \
+        pick([r for r in rows if any(i.get("how") == "killopn" and i["at"] == "idle" for i in r["items"]) and not r["closed"]], 1, run.seed)
+    sel = must + [r for r in pick(rows, n, run.seed, key=kinds) if r not in must][:max(0, n - len(must))]
+    if prop == "C25":
+        na = fault_rows(res[4].rows, run.seed, noauto=True)
+        na = [r for r in na if len(r["items"]) == 1 or r["items"][-1]["k"] == "close"]
+        sel += pick(na, run.pick(2, 8), run.seed, key=kinds)
+    else:
+        # no fault at all: cancel and subscribe again while notifications (and acknowledgements) flow
+        sel += [{"script": ["sub", "sub", "churn"], "items": [], "lost": False, "closed": False, "noauto": False}] * run.pick(1, 4)
     cases = []
     for i, r in enumerate(sel):
-        cases.append({"id": "f%d" % i, "script": r["script"], "items": r["items"], "tries": 2,
+        cases.append({"id": "f%d" % i, "script": r["script"], "items": r["items"], "tries": 2, "noauto": bool(r.get("noauto")),
                       "model_lost": r["lost"], "model_closed": r["closed"]})
     run.log("TLC: %d sampled behaviours -> %d distinct fault scenarios, running %d" % (len(res[1].rows), len(rows), len(cases)))
     if not cases:
         raise vf.Inconclusive("no fault scenario generated")
-    results = run.go_run(exe[0], ["-mode", "faults", "-par", str(run.pick(5, 10))], cases=cases, timeout=run.pick(1200, 3300))
+    results = run.go_run(exe[0], ["-mode", "faults", "-par", str(run.pick(10, 12))], cases=cases, timeout=run.pick(1200, 3300))
     if len(results) != len(cases):
         raise vf.Inconclusive("harness returned %d results for %d cases" % (len(results), len(cases)))
     byid = {c["id"]: c for c in cases}
@@ -227,43 +268,83 @@ def run_faults(run, vf, prop):
             run.cov["undriven"] = run.cov.get("undriven", 0) + 1
             tr = None
         for v in mine:
-            run.violation(v["key"], v["detail"], case={"script": c.get("script"), "items": c.get("items")})
+            run.violation(v["key"], v["detail"], case={"script": c.get("script"), "items": c.get("items"), "noauto": c.get("noauto")})
         if tr and r["status"] == "ok":
-            recs = normalize_life(tr, len(c.get("script", [])))
+            recs = normalize_life(tr)
             traces.append((r["case"], "\n".join(json.dumps(x) for x in recs) + "\n", len(recs)))
     run.absorb(results)
     if run.cov.get("undriven", 0) * 3 > len(cases):
         raise vf.Inconclusive("%d of %d fault scenarios could not be driven" % (run.cov["undriven"], len(cases)))
-    # one TLC run per scenario (in parallel): a trace the specification cannot explain must not hide the others
+
+    def report(what, k, rest, case):
+        if prop == "C25" and what == "UNDOC":
+            a, b = rest.split()
+            run.violation("undocumented-transition-%s-to-%s" % (a, b),
+                          "the client reported ConnState %s directly after %s (scenario %s)" % (b, a, json.dumps(case)), case=case)
+        elif prop == "C25" and what == "AFTERCLOSE":
+            run.violation("after-close-" + rest.replace(" ", "-"),
+                          "after Close returned the client still reported/attempted: %s (scenario %s)" % (rest, json.dumps(case)), case=case)
+        elif prop == "C26" and what == "ACKTWICE":
+            run.violation("acknowledgement-repeated-after-answered-request",
+                          "sub/seq %s acknowledged again although a PublishRequest carrying it was answered (scenario %s)" % (rest, json.dumps(case)), case=case)
+        elif prop == "C26" and what == "ACKMISSING":
+            run.violation("acknowledgement-missing-in-next-publish-request",
+                          "sub/seq %s not acknowledged with the next PublishRequest (scenario %s)" % (rest, json.dumps(case)), case=case)
+
+    # one TLC run per scenario (all in parallel): a trace the specification cannot explain must not hide the others
     def validate(t):
         cid, text, n = t
-        return cid, text, run.tlc("ClientConn", "ClientConnLife", "ClientConnLife.cfg", mode="trace", files={"trace.ndjson": text},
-                                  deque=True, count=True, timeout=1500, label="trace validation of scenario %s (%d events)" % (cid, n))
+        cfg = "ClientConnLife_noauto.cfg" if byid[cid].get("noauto") else "ClientConnLife.cfg"
+        try:
+            return cid, text, run.tlc("ClientConn", "ClientConnLife", cfg, mode="trace", files={"trace.ndjson": text},
+                                      deque=True, count=True, timeout=run.pick(150, 600), label="trace validation of scenario %s (%d events)" % (cid, n))
+        except vf.Inconclusive as ex:       # time-out of the search: not explained within the budget
+            r = vf.TlcResult()
+            r.out = "STUCK 0 (%s)" % ex
+            return cid, text, r
+
+    def ackobs():
+        text = "".join(t[1] for t in traces)
+        return run.tlc("ClientConn", "AckObs", "AckObs.cfg", mode="trace", files={"trace.ndjson": text}, count=True, timeout=1500,
+                       label="acknowledgement observer over %d traces" % len(traces))
+    thunks = [(lambda t=t: validate(t)) for t in traces]
+    if prop == "C26" and traces:
+        thunks.append(ackobs)
     out = []
-    step = run.pick(5, 8)
-    for k in range(0, len(traces), step):
-        out += run.parallel(*[(lambda t=t: validate(t)) for t in traces[k:k + step]])
+    step = 12
+    for k in range(0, len(thunks), step):
+        out += run.parallel(*thunks[k:k + step])
     unexplained = 0
-    for cid, text, tv in out:
+    for o in out:
+        if not isinstance(o, tuple):
+            # AckObs: deterministic observer, one batch; map the event index back to its scenario
+            if not o.ok:
+                run.save_text("tlc-ackobs.out", o.out)
+                raise vf.Inconclusive("acknowledgement observer did not run: %s" % (o.error or o.violated,))
+            spans, a = [], 1
+            for cid, text, n in traces:
+                spans.append((a, a + n - 1, cid))
+                a += n
+            seen = set()
+            for m in re.finditer(r'"(ACKTWICE|ACKMISSING) (\d+) ([^"]*)"', o.out):
+                what, k, rest = m.group(1), int(m.group(2)), m.group(3)
+                if (what, k, rest) in seen:
+                    continue
+                seen.add((what, k, rest))
+                cid = next((c for x, y, c in spans if x <= k <= y), None)
+                c = byid.get(cid, {})
+                report(what, k, rest, {"script": c.get("script"), "items": c.get("items"), "event": k})
+            run.cov["ack_traces_observed"] = len(traces)
+            continue
+        cid, text, tv = o
         c = byid[cid]
         seen = set()
-        for m in re.finditer(r'"(UNDOC|AFTERCLOSE|ACKTWICE|ACKMISSING) (\d+) ([^"]*)"', tv.out):
+        for m in re.finditer(r'"(UNDOC|AFTERCLOSE) (\d+) ([^"]*)"', tv.out):
             what, k, rest = m.group(1), int(m.group(2)), m.group(3)
             if (what, k) in seen:
                 continue
             seen.add((what, k))
-            case = {"script": c.get("script"), "items": c.get("items"), "event": k}
-            if prop == "C25" and what == "UNDOC":
-                a, b = rest.split()
-                run.violation("undocumented-transition-%s-to-%s" % (a, b),
-                              "the client reported ConnState %s directly after %s (scenario %s)" % (b, a, json.dumps(case)), case=case)
-            elif prop == "C25" and what == "AFTERCLOSE":
-                w = rest.replace(" ", "-")
-                run.violation("after-close-" + w, "after Close returned the client still reported/attempted: %s (scenario %s)" % (rest, json.dumps(case)), case=case)
-            elif prop == "C26" and what == "ACKTWICE":
-                run.violation("acknowledgement-repeated-after-answered-request", "sub/seq %s acknowledged again (scenario %s)" % (rest, json.dumps(case)), case=case)
-            elif prop == "C26" and what == "ACKMISSING":
-                run.violation("acknowledgement-missing-in-next-publish-request", "sub/seq %s not acknowledged with the next PublishRequest (scenario %s)" % (rest, json.dumps(case)), case=case)
+            report(what, k, rest, {"script": c.get("script"), "items": c.get("items"), "noauto": c.get("noauto"), "event": k})
         if tv.ok:
             run.cov["traces_validated_against_impl"] += 1
         elif "STUCK" in tv.out:
@@ -279,12 +360,12 @@ def run_faults(run, vf, prop):
     run.cov["traces_unexplained"] = unexplained
     if traces and unexplained * 2 > len(traces):
         raise vf.Inconclusive("%d of %d recorded traces are not explained by the specification" % (unexplained, len(traces)))
-    run.cov["rule"] = ("one case per distinct (subscribe calls, fault sequence with injection points, Close point) generated by TLC "
-                       "from the as-is model; class = that tuple")
+    run.cov["rule"] = ("one case per distinct (subscribe calls, fault sequence with injection points and outage flavour, Close point, "
+                       "auto-reconnect) generated by TLC from the as-is model; class = that tuple")
     run.cov["scenarios_generated"] = len(rows)
     run.assumptions += [
-        "back to Connected within 40 s after the last fault (ReconnectInterval 100 ms, loaded machine); notifications again within 12 s (value changes every 40 ms)",
+        "back to Connected within 40 s after the last fault (ReconnectInterval 100 ms); every monitored item (2 per subscription, different TimestampsToReturn) delivers again within 12 s (values change every 40 ms); the wait ends early when the publish loop sits in its paused select with empty signal channels and an idle monitor",
         "after Close: state and connection attempts observed for 1.5 s (15 reconnect intervals), goroutines polled for 15 s",
-        "peer is the real gopcua server in a child process: restart = session and subscription loss, reset/outage = session kept; TransferSubscriptions/Republish unsupported",
+        "peer is the real gopcua server in a child process: restart = session and subscription loss, reset/outage = session kept; an outage either refuses connections or lets them die on the OpenSecureChannel request; TransferSubscriptions/Republish unsupported",
         "faults are injected after the Subscribe calls returned; injection points are steady state and the monitor's hook points",
     ]
